@@ -3,7 +3,7 @@
    PARTIAL by nature: the wall-clock bound of the poll (MP_STATUS_CHECK_INTERVAL), SIGCHLD delivery, is_alive() and the
    state of the pipes after SIGKILL are runtime behaviour; the model assumes a dead worker answers nothing further and
    that the poll's is_alive() test is accurate.  The real-SIGKILL correspondence run covers the runtime side. *)
-From PD Require Import Base SdlModel SdlFault SdlIterRef SdlIterProofs.
+From PD Require Import Base SdlModel SdlFault SdlIterRef SdlIterProofs SdlIterResume.
 Open Scope nat_scope.
 
 (* never ends the epoch early as if complete: for every configuration, every state, every fault schedule (deaths and
@@ -101,3 +101,29 @@ Theorem C09_iter_fault_run_never_wrong : forall c, c_kind c = KIter -> 0 < c_W c
     (tail = [] \/ exists o, tail = [o] /\ (benignF o \/ (o = FO OStop /\ k = length (reference c)))).
 Proof. exact iter_fault_run_never_wrong. Qed.
 Print Assumptions C09_iter_fault_run_never_wrong.
+
+(* iterable datasets with their own state, default snapshot interval: a next() under ANY fault schedule, from any good state
+   (Good1: the invariants of SdlIterProofs.v plus a snapshot with exact worker entries; the fresh iterator is good, and good
+   states are closed under next and under checkpoint+resume), either delivers the batch that is due and leaves a good state, or
+   reports StopIteration when nothing is left, or raises the worker-died error ... *)
+Theorem C09_iter_fault_step_keeps_good : forall c, c_kind c = KIter -> 0 < c_W c -> 0 < c_P c -> c_I c = 1 ->
+  forall rest s cr evs fuel, Good1 c rest s ->
+  exists o s' cr' evs', next_data_f fuel c s cr evs = (o, s', cr', evs') /\
+    (benignF o \/ match rest with [] => o = FO OStop | b :: rest' => o = FO (OBatch b) /\ Good1 c rest' s' end).
+Proof. exact iter_fault_step_good. Qed.
+Print Assumptions C09_iter_fault_step_keeps_good.
+
+Theorem C09_iter_fresh_is_good : forall c, c_kind c = KIter -> 0 < c_W c -> 0 < c_P c -> c_I c = 1 -> Good1 c (reference c) (sdl_fresh c).
+Proof. exact iter_fresh_good. Qed.
+Print Assumptions C09_iter_fresh_is_good.
+
+(* ... and the checkpoint taken after ANY batch delivered under ANY fault schedule resumes, in a new iterator and under every
+   arrival schedule, to exactly the remaining stream: a worker death later on does not spoil earlier checkpoints *)
+Theorem C09_iter_checkpoint_after_faulty_step_resumes_exactly : forall c, c_kind c = KIter -> 0 < c_W c -> 0 < c_P c ->
+  c_stateful c = true -> c_I c = 1 ->
+  forall b rest s cr evs fuel s' cr' evs' sched,
+  Good1 c (b :: rest) s -> next_data_f fuel c s cr evs = (FO (OBatch b), s', cr', evs') ->
+  let '(sr, sched') := sdl_resume c (state_dict s') sched in
+  outcomes c (S (length rest)) sr sched' = map OBatch rest ++ [OStop].
+Proof. exact iter_checkpoint_after_faulty_step_resumes. Qed.
+Print Assumptions C09_iter_checkpoint_after_faulty_step_resumes_exactly.
